@@ -216,3 +216,15 @@ Definition pos_coherent (es : list err) : Prop :=
 Definition rec_coherent (es : list err) : Prop :=
   forall x y, In x es -> In y es -> key x = key y -> x = y.
 Definition coherent (es : list err) : Prop := pos_coherent es /\ rec_coherent es.
+
+(* decidable versions of the side conditions (SanitizeProofs.pos_coherentb_spec,
+   rec_coherentb_spec) *)
+Definition pos_coherentb (es : list err) : bool :=
+  forallb (fun x => forallb (fun y =>
+    match cmp_npf (e_pos x) (e_pos y) with
+    | Eq => pos_eqb (e_pos x) (e_pos y)
+    | _ => true
+    end) es) es.
+Definition rec_coherentb (es : list err) : bool :=
+  forallb (fun x => forallb (fun y =>
+    if same_pp x y && msg_eqb x y then N.eqb (e_aux x) (e_aux y) else true) es) es.
